@@ -124,7 +124,7 @@ CLAIMED["C17"] = dict(category="model_checking",
     design="6/C17", technique="TLA+ chain model + TLC; spec->code replay with independently decoded signatures",
     note=CHAIN_NOTE)
 CLAIMED["C20"] = dict(category="fault_enumeration",
-    text="Entropy.tla enumerates the complete fault space of the random source (4 operations x failure after k=0..32 bytes x 11 failure kinds incl. "
+    text="Entropy.tla enumerates the complete fault space of the random source (4 operations x failure after k=0..32 bytes x 12 failure kinds incl. "
          "the error VALUE -- EOF, wrapped EOF, Temporary / Timeout errors, data and error in one Read -- x "
          "3 read sizes), TLC checks NoDegenerateKey / ErrorIffFault / termination and exports each case; every case is executed with a "
          "fault-injecting io.Reader in a worker process; outcome must be (nil, error) for k<32 and a verifying token with the key derived "
